@@ -115,9 +115,9 @@ def corrupt(inst, rows: list, nb: int, rng: random.Random) -> tuple:
     elif kind == "id-big":
         r[0] = inst.n_different_items + rng.randint(1, 2)
     elif kind == "other-bin":
-        r[1] = rng.randint(1, nb + 1)
+        r[1] = rng.randint(1, max(1, nb) + 1)     # (nb may already be a corrupted, non-positive count)
     elif kind == "bin-gap":
-        b = rng.randint(1, nb)
+        b = rng.randint(1, max(1, nb))
         for q in rows:
             if q[1] >= b:
                 q[1] += 1
